@@ -338,6 +338,11 @@ theorem step_txOrphan (cfg : Cfg) (s t : St) (f : Bool) (h : Step cfg f s t) (in
         have l1 := le_tot txW _ _ _ hi
         have l2 := le_tot srW _ _ _ hi
         (try simp only [St.setDone, St.setBg, ↓reduceIte, Bool.false_eq_true, Bool.and_false, Bool.and_true, Bool.false_and, Bool.true_and]) <;> (repeat' split) <;> simp_all [tot_set_eq _ _ _ _ _ hi, tot_ackWs_tok, tot_ackWs_txw, tot_ackWs_srw0, tokW, txW, CompErr.next_ne_closing, b2n_true, b2n_false, bgClk_run, bgClk_idle, bgClk_exited, bgClk_parked, bgClk_clearW, bgClk_afterCmd, bphClk, St.bg, onOk, onErr, selNext, afterSetErr, srW] <;> (try omega)
+          | clAcqKept _ i hi he hk hs =>
+        have l0 := le_tot tokW _ _ _ hi
+        have l1 := le_tot txW _ _ _ hi
+        have l2 := le_tot srW _ _ _ hi
+        (try simp only [St.setDone, St.setBg, ↓reduceIte, Bool.false_eq_true, Bool.and_false, Bool.and_true, Bool.false_and, Bool.true_and]) <;> (repeat' split) <;> simp_all [tot_set_eq _ _ _ _ _ hi, tot_ackWs_tok, tot_ackWs_txw, tot_ackWs_srw0, tokW, txW, CompErr.next_ne_closing, b2n_true, b2n_false, bgClk_run, bgClk_idle, bgClk_exited, bgClk_parked, bgClk_clearW, bgClk_afterCmd, bphClk, St.bg, onOk, onErr, selNext, afterSetErr, srW] <;> (try omega)
           | clWait _ i hi hm ht =>
         have l0 := le_tot tokW _ _ _ hi
         have l1 := le_tot txW _ _ _ hi
